@@ -295,16 +295,18 @@ def run(ctx):
     notes = {}
 
     # 1. S => P on the code-shaped model (no code involved; cannot change with /repo) ------------------------
-    mc_pinned = tlc.run("Condition", "MC_Condition.cfg", workers=4, timeout=300, tag="C13-mc-pinned" + _PID)
-    mc_fixed = tlc.run("Condition", "MC_Condition_fixed.cfg", workers=4, timeout=300, tag="C13-mc-fixed" + _PID)
-    if mc_fixed["violated"]:
-        raise tlc.TlcFailure("S(repaired) => P unexpectedly refuted: the P monitor or S is wrong\n" + mc_fixed["out"][-2000:])
+    # S = the repaired code (GE = TRUE) must satisfy P; the comparison before the repair is kept as a design note
+    mc = tlc.run("Condition", "MC_Condition.cfg", workers=4, timeout=300, tag="C13-mc" + _PID)
+    mc_pinned = tlc.run("Condition", "MC_Condition_pinned.cfg", workers=4, timeout=300, tag="C13-mc-pinned" + _PID)
+    if mc["violated"]:
+        raise tlc.TlcFailure("S => P unexpectedly refuted: the P monitor or S is wrong\n" + mc["out"][-2000:])
     notes["design_S_implies_P"] = {
-        "pinned_comparison(lastChange>lastCheck)": "REFUTED" if mc_pinned["violated"] else "holds",
-        "counterexample": [s.get("obs") for s in mc_pinned["trace"]][1:],
-        "repaired_comparison": "holds", "states": [mc_pinned["distinct"], mc_fixed["distinct"]]}
-    ctx.log("S=>P pinned:", notes["design_S_implies_P"]["pinned_comparison(lastChange>lastCheck)"],
-            "states", mc_pinned["distinct"], "| repaired: holds, states", mc_fixed["distinct"])
+        "S(repaired: lastChange>0 and lastChange>=lastCheck)": "holds",
+        "S(before repair: lastChange>lastCheck)": "REFUTED" if mc_pinned["violated"] else "holds",
+        "counterexample_before_repair": [s.get("obs") for s in mc_pinned["trace"]][1:],
+        "states": [mc["distinct"], mc_pinned["distinct"]]}
+    ctx.log("S=>P: holds, states", mc["distinct"], "| variant before the repair:",
+            notes["design_S_implies_P"]["S(before repair: lastChange>lastCheck)"], "states", mc_pinned["distinct"])
 
     # 2. resolution: TLC enumerates the cases, the real resolveConditions answers, TLC judges ---------------
     cases = wd + "/cases.ndjson"
@@ -319,8 +321,10 @@ def run(ctx):
                             env={"VF_VARIANTS": nvar})
     rr = recs.read_ndjson(wd + "/resolve.ndjson")
     design = [v for v in rres["vf"] if len(v) > 1 and v[1] == "DESIGN"]
-    notes["design_resolve_rule"] = {"pinned_hasField_agrees_with_P": design[0][2] if design else None,
-                                    "repaired_hasField_agrees_with_P": design[0][3] if design else None}
+    if not design or design[0][2] is not True:
+        raise tlc.TlcFailure("code-shaped hasField rule (repaired) does not agree with P on the case domain")
+    notes["design_resolve_rule"] = {"hasField_rule_agrees_with_P": design[0][2],
+                                    "rule_before_repair_agrees_with_P": design[0][3]}
     for idx, sig in rbad:
         r = rr[idx - 1]
         ctx.violation(sig, "resolveConditions on a referenced message with fields %s, condition kind %s field %s: rc=%d bound=%d"
@@ -394,15 +398,16 @@ def run(ctx):
     ctx.notes.append(notes)
     nqueries = sum(len(w.deps) + len(w.finds) + len(w.findms) for w in ws)
     ctx.coverage = {
-        "states": res["distinct"] + mc_pinned["distinct"] + mc_fixed["distinct"],
+        "states": res["distinct"] + mc["distinct"] + mc_pinned["distinct"],
         "transitions": ginfo["edges"],
         "graph_nodes": ginfo["nodes"], "graph_fixpoint": True, "worlds": [w.name for w in ws],
         "traces_validated_against_impl": traces_validated,
         "random_steps": nsteps * len(ws),
         "resolve_cases": len(rr), "resolve_rejected": len(rbad),
         "evaluations": ginfo["edges"] + len(rr) + nsteps * len(ws),
-        "distinct_nontrivial": ginfo["edges"] + len(rr),
-        "rule": "graph edges are distinct (node,input) pairs of the reachable fix-point; resolve cases are distinct by construction",
+        "distinct_nontrivial": ginfo["edges"] - (ginfo["nodes"] - 1) + len(rr),
+        "rule": "graph edges are distinct (state,input) pairs of the reachable fix-point; trivial = the tick(0 s) self-loop every "
+                "node has (subtracted); resolve cases are distinct by construction",
         "rejected_steps_by_signature": {k: len(v) for k, v in sigs.items()},
         "samples": samples[:3] + [rr[0], rr[len(rr) // 2]],
         "query_kinds": nqueries,
